@@ -529,6 +529,8 @@ class Interp:
             return it.materialise()
         if isinstance(it, Class):
             return self.iterate_class(it, node)
+        if isinstance(it, Obj) and isinstance(it.attrs.get("_fields"), tuple) and it.cls.lookup("__iter__") is None:
+            return [it.attrs[n] for n in it.attrs["_fields"]]
         if isinstance(it, Obj):
             m = it.cls.lookup("__iter__")
             if m is not None:
@@ -1019,6 +1021,24 @@ class Interp:
         o = Obj(cls, {})
         if init is not None:
             self.call_func(init, args, kwargs, node, self_obj=o)
+        elif any((dotted(b) or "").split(".")[-1] == "NamedTuple" for b in cls.node.bases):
+            # typing.NamedTuple: fields in declaration order, defaults from the class body
+            decl = [st for st in cls.node.body if isinstance(st, ast.AnnAssign) and isinstance(st.target, ast.Name)]
+            fields = [st.target.id for st in decl]
+            if len(args) > len(fields) or any(k not in fields for k in kwargs):
+                raise RaiseSignal("TypeError", node)
+            for n, v in zip(fields, args):
+                o.attrs[n] = v
+            for k, v in kwargs.items():
+                if k in o.attrs:
+                    raise RaiseSignal("TypeError", node)
+                o.attrs[k] = v
+            for st in decl:
+                if st.target.id not in o.attrs:
+                    if st.value is None:
+                        raise RaiseSignal("TypeError", node)
+                    o.attrs[st.target.id] = self.eval_in_module(cls.module, st.value)
+            o.attrs["_fields"] = tuple(fields)
         elif any(d == "dataclass" or d.startswith("dataclass") for d in [dotted(x) or (dotted(x.func) if isinstance(x, ast.Call) else "") or "" for x in cls.node.decorator_list]):
             fields = [st.target.id for st in cls.node.body if isinstance(st, ast.AnnAssign) and isinstance(st.target, ast.Name)]
             for n, v in zip(fields, args):
